@@ -60,6 +60,11 @@ deriving Repr, Inhabited
 
 def St.init : St := ⟨none, 0⟩
 
+/-- a new `Store` after `LoadCheckpoint` with a savepoint URI: the id counter is the loaded savepoint's id
+(`s.state.checkpointID = loadedCheckpoint.Id`, regenerated as `Facts.c12LoadCounterFromLoaded`); job snapshot
+files in the local storage are not consulted on this path -/
+def loadFromSavepoint (id : Nat) : St := ⟨none, id⟩
+
 inductive Call where
   | create (ops srs : List Nat)
   | savepoint (ops srs : List Nat)
